@@ -20,6 +20,7 @@ class OptV:
         self.v = z3.BitVec(name + '.v', 64)
 
 
+@common.part
 def parse_from_tags(chk):
     prog = chk.prog
     t = prog.tables
